@@ -17,7 +17,7 @@ NUM_GROUPS = ["MAJOR.MINOR.PATCH", "MAJOR.MINOR", "MAJOR", "MAJOR[.MINOR[.PATCH]
 TAG_GROUPS = ["", "", "[-TAG]", "-TAG", "[-TAG[NUM]]", "[-TAGNUM]", "[PYTAGNUM]", "[PYTAG[NUM]]", "-TAGNUM", "[.PYTAGNUM]",
               "[-TAG[.NUM]]", "PYTAGNUM", "[+TAG]"]
 SEPS = [".", ".", ".", "-", "_", "+", "", " ", "~", "/", ":"]
-PREFIXES = ["", "", "v", "v", "ver-", "release_", "r", "x+y ", "(a) ", "{b}", "*", "a|b ", "\\[x\\] "]
+PREFIXES = ["", "", "v", "v", "ver-", "release_", "r", "x+y ", "(a) ", "*", "a|b ", "\\[x\\] "]
 SUFFIXES = ["", "", "", "", " end", "!", ")", "*"]
 
 TAGS = ["final", "alpha", "beta", "rc", "dev", "post", "preview"]
